@@ -20,6 +20,7 @@ pub mod c04;
 pub mod c05;
 pub mod c06;
 pub mod c07;
+pub mod c13;
 pub mod c40;
 pub mod refchecks;
 pub mod c41;
@@ -45,6 +46,7 @@ pub fn dispatch(id: &str, args: &[String]) -> ! {
         "C05" => c05::run(args),
         "C06" => c06::run(args),
         "C07" => c07::run(args),
+        "C13" => c13::run(args),
         "C40" => c40::run(args),
         "C16" => refchecks::run("C16", args),
         "C18" => refchecks::run("C18", args),
